@@ -13,8 +13,17 @@
                                                 (the model's observation, per tensor)  full
      bounds (distinct lines <= fills <= reads)  C17_bounds (about the window-count spec) full
      line granularity                           C17_line_granular                      full
-     cache = furthest-next-use with bypass                                             NOT PROVED; refuted
-                                                C17_cache_tie_refuted under equal next-use stamps
+     cache = furthest-next-use with bypass      C17_cache_machine: for EVERY schedule ordered by
+                                                (stamp, binding) with correct next-use stamps in which
+                                                equal (stamp, binding) means same line, the cache state
+                                                machine never fails and its fills are those of the
+                                                policy g_min_run (the oracle's min_run is this function
+                                                at the oracle's access records)              full
+                                                NOT PROVED: that the model's k-way merge of a case is
+                                                such a schedule and equals the oracle's sorted schedule
+                                                (C17_cache_refines_min at the level of cases);
+                                                refuted under equal next-use stamps:
+                                                C17_cache_tie_refuted
      oracle on the model                        C17_model_meets_spec: every clause except the cache
                                                 clause, which is a hypothesis (trivial without
                                                 cache runs: C17_model_meets_spec_no_cache)
@@ -23,7 +32,7 @@
 From Coq Require Import ZArith List Bool.
 From FT Require Import Model.Base Model.Obs Model.C17Traffic Model.C17Check
                        Proofs.ObsP Proofs.C17TrafficP Proofs.C17CheckP Proofs.C17SchedP
-                       Proofs.C17BuffetP Proofs.C17LiftP.
+                       Proofs.C17BuffetP Proofs.C17LiftP Proofs.C17CacheP.
 Import ListNotations.
 Open Scope Z_scope.
 
@@ -130,9 +139,40 @@ Theorem C17_line_granular : forall mask epl shape l l',
 Proof. exact accesses_granular. Qed.
 Print Assumptions C17_line_granular.
 
-(* NOT PROVED (kept as the oracle clause [cache_ok]):
+(* the cache state machine (cache_step = the main loop's body with the cache callbacks: SortedList
+   next_evict ordered by (next stamp, binding), pinned staging lines, hit detection at the head of
+   next_evict only, eviction from the far end until the line fits, bypass rule
+   list_elem <= next_evict[-1]) refines the furthest-next-use-with-bypass policy g_min_run, which
+   knows nothing of stamps: residents are unordered sets, "next use" is the index of the next
+   access to the same line of the same binding in the schedule.
+   wfs sched: the schedule is ordered by (stamp, binding) [clt], two accesses that are not
+   ordered strictly touch the same line of the same binding (region 0), and every next-use
+   stamp is the stamp of the next access to that line.  For all capacities, line sizes, numbers
+   of bindings, reads and writes, staging-area (pinned) accesses:
+     - the run never raises (c_err = 0: the accessed resident line is always the head);
+     - the read bits per binding are line * (fills of g_min_run).
+   Proof: Proofs/C17CacheP.v, simulation relation Sim (next_evict is a permutation of the
+   resident set, sorted, every key is the key of the line's next access; pinned set likewise;
+   occupancy = line * residents), evict_loop = g_make_room (evict_room), the last element of
+   next_evict is the furthest line (furthest_last), index order of next uses = key order
+   (later_key). *)
+Theorem C17_cache_machine : forall cap line nb sched, wfs sched ->
+  let c' := cache_run nb cap line sched in
+  c_err c' = 0
+  /\ map fst (c_tr c')
+     = map (Z.mul line) (g_min_run aid_eq aw astg fst cap line sched [] [] (repeat 0 nb)).
+Proof. exact cache_machine_spec. Qed.
+Print Assumptions C17_cache_machine.
+
+(* NOT PROVED (kept as the oracle clause [cache_ok], evaluated on every case):
      C17_cache_refines_min : forall c cap, c17_wf c = true -> c17_region c = 0 -> In cap (k_caps c) ->
-       reads of model_cache c cap = spec_cache_reads c cap       (min_run: furthest next use, bypass)
+       reads of model_cache c cap = spec_cache_reads c cap
+   Missing between C17_cache_machine and this statement: (i) the k-way merge the_schedule is the
+   stable sort by (padded stamp, binding) of the tagged accesses, and padding with -1 orders
+   non-negative stamps like Python's list comparison, so that wfs (sched_of c pin_cache) holds in
+   region 0; (ii) the bucket sort of the bindings equals the oracle's stable insertion sort;
+   (iii) g_min_run on the model's accesses = min_run on the oracle's access records (same
+   parametric function; pointwise agreement of same-line / write / staging as in fills_corr).
      C17_monotone : fills never increase with the capacity (oracle clause non_increasing).
    Refuted outside region 0: when two lines of one binding are used next in the same iteration
    step (a read and a write to different lines) their ListElems compare equal, the line that is
@@ -173,3 +213,21 @@ Example C17_nonvacuous :
   c17_wf c = true /\ c17_region c = 0 /\ c17_holds c (c17_model c) = true
   /\ vnth 2 (c17_model c) = VL [VL [VL [VL [VZ 128]; VL [VZ 32]]]; VZ 0; VZ 0].
 Proof. vm_compute. repeat split. Qed.
+
+(* non-vacuity of C17_cache_machine: a schedule of two bindings (a line read twice, a write to the
+   same line in the same step as the second read, another line in between) is well formed, and
+   with room for one line the machine and the policy charge 2 fills to binding 0, none to 1 *)
+Example C17_cache_machine_nonvacuous :
+  let mk := fun st o w nx => {| a_stamp := st; a_obj := o; a_w := w; a_stg := false; a_next := nx |} in
+  let sched := [(0%nat, mk [0] [4] false (Some [2])); (0%nat, mk [1] [8] false None);
+                (1%nat, mk [1; 0] [3; 0] false None);
+                (0%nat, mk [2] [4] false (Some [2])); (0%nat, mk [2] [4] true None)] in
+  wfs sched
+  /\ map fst (c_tr (cache_run 2 32 32 sched)) = [64; 32]
+  /\ g_min_run aid_eq aw astg fst 32 32 sched [] [] [0; 0] = [2; 1].
+Proof.
+  cbn zeta. split; [|split; vm_compute; reflexivity].
+  cbn [wfs]. repeat split; try (intros y H; cbn [In] in H;
+    repeat (destruct H as [<-|H]; [vm_compute; try reflexivity; try discriminate|]); try destruct H);
+    try (vm_compute; reflexivity); try (intros; discriminate).
+Qed.
